@@ -204,6 +204,37 @@ fn op_bi(op: &str, var: &[&str], ints: &[i64], sc: &[V]) -> Out {
             };
             ok(&r)
         }
+        // the same comparison on the whole opinion AND on each of b, d, u, a through the scalar type's own impl:
+        // "component-wise" is then checked exactly (no tolerance band around the comparison's boundary)
+        "bcmpc" => {
+            need!(ints.len() == 2 && sc.len() == 10);
+            need!((0..=u32::MAX as i64).contains(&ints[1]));
+            let (x, y, eps, maxrel) = (bop(&sc[..4]), bop(&sc[4..8]), sc[8], sc[9]);
+            let k = ints[0];
+            let mu = ints[1] as u32;
+            let c = |p: &V, q: &V| -> bool {
+                match k {
+                    0 => p == q,
+                    1 => AbsDiffEq::abs_diff_eq(p, q, eps),
+                    2 => RelativeEq::relative_eq(p, q, eps, maxrel),
+                    _ => UlpsEq::ulps_eq(p, q, eps, mu),
+                }
+            };
+            let r = match k {
+                0 => x == y,
+                1 => AbsDiffEq::abs_diff_eq(&x, &y, eps),
+                2 => RelativeEq::relative_eq(&x, &y, eps, maxrel),
+                3 => UlpsEq::ulps_eq(&x, &y, eps, mu),
+                _ => return Out::Unsup,
+            };
+            let mut s = String::new();
+            r.dump(&mut s);
+            c(x.b(), y.b()).dump(&mut s);
+            c(x.d(), y.d()).dump(&mut s);
+            c(x.u(), y.u()).dump(&mut s);
+            c(x.a(), y.a()).dump(&mut s);
+            Out::Ok(s)
+        }
         _ => Out::Unsup,
     }
 }
